@@ -330,6 +330,33 @@ func main() {
 			rep.Class("equivalent-spellings/accepted")
 		}
 	}
+	// IPv6 literal sites: the port of the Host header is ignored for them too, and [::] is a catch-all
+	for _, tc := range []struct {
+		site  string
+		hosts []string
+		want  string
+	}{
+		{"[::1]:8080", []string{"[::1]:8080", "[::1]", "[::1]:9"}, "s0"},
+		{"[::1]:8080", []string{"[::2]:8080", "x.test"}, "none"},
+		{"[::]:8080", []string{"x.test", "[::1]:8080", "a.test:8080"}, "s0"},
+		{"[2001:db8::A]:8080", []string{"[2001:DB8::a]:8080", "[2001:db8::a]"}, "s0"},
+	} {
+		cf := fmt.Sprintf("%s {\n\theader / X-Site s0\n\tstatus 204 /\n}\n", tc.site)
+		l, err := kit.Load(cf, "/nonexistent/Casketfile")
+		if err != nil {
+			rep.Violation("C01/unexpected-load-error", "IPv6 literal site failed to load: "+err.Error(), vcase{Casketfile: cf})
+			continue
+		}
+		for _, rh := range tc.hosts {
+			rec, pv, _ := kit.ServeReq(l.Servers[0], reqFor(rh, "/", 1))
+			rep.Eval(1)
+			if got := outcome(rec, pv, rh, 1); got != tc.want {
+				rep.Violation("C01/ipv6-literal-site", fmt.Sprintf("site %s, Host %q: got %s, want %s", tc.site, rh, got, tc.want), vcase{cf, rh, "/", 1, got, tc.want})
+			}
+		}
+		l.Close()
+		rep.Class("ipv6-literal-site")
+	}
 	rep.Finish()
 }
 
